@@ -124,6 +124,35 @@ fn catalogue() -> Vec<(&'static str, Vec<u8>)> {
     let mut body = vec![0x8b, reason.len() as u8];
     body.extend(&reason);
     v.push(("disconnect-reason-string", wire::pkt(0xe0, &body)));
+    // Deliverable PUBLISH packets whose property block goes wrong somewhere in the middle: the message
+    // is handed to the application, which iterates the block to its end (errors included).
+    let blocks: [&[u8]; 22] = [
+        &[0x80, 0x01, 0x01],
+        &[0x80, 0x80, 0x01, 0x01],
+        &[0x80, 0x80, 0x80, 0x01, 0x01],
+        &[0x80, 0x80, 0x80, 0x80, 0x01, 0x01],
+        &[0xff, 0x7f, 0x01, 0x01],
+        &[0x0b, 0x80],
+        &[0x0b, 0x80, 0x80],
+        &[0x0b, 0xff, 0xff, 0xff],
+        &[0x0b, 0x80, 0x80, 0x80, 0x80, 0x01, 0x01],
+        &[0x23, 0x01],
+        &[0x02, 0x01, 0x01, 0x01],
+        &[0x03, 0x00],
+        &[0x03, 0x00, 0x05, 0x61],
+        &[0x03, 0x00, 0x02, 0xc0, 0xc0, 0x01, 0x01],
+        &[0x09, 0x00, 0x03, 0x61, 0x01],
+        &[0x26, 0x00, 0x01, 0x6b, 0x00, 0x05, 0x76],
+        &[0x26, 0x00, 0x01, 0x6b, 0x00],
+        &[0x26, 0x00, 0x05, 0x6b],
+        &[0x26, 0x00],
+        &[0x26, 0x00, 0x01, 0xc0, 0x00, 0x01, 0x76, 0x01, 0x01],
+        &[0x26, 0x00, 0x01, 0x6b, 0x00, 0x01, 0xc0, 0x01, 0x01],
+        &[0x7e, 0x01, 0x01],
+    ];
+    for block in blocks {
+        v.push(("publish-props-go-wrong", wire::publish(b"t", None, 0, false, false, block, b"p")));
+    }
     v
 }
 
